@@ -86,6 +86,7 @@ type PathResult struct {
 }
 
 type Explorer struct {
+	bound      uint64 // variables pinned by an equality conjunct of the current path condition
 	solverName string
 	timeoutMs  int
 	solver     *solverProc
@@ -199,6 +200,22 @@ func (e *Explorer) applyPatch(p []varval) {
 	}
 }
 
+// addPC appends a conjunct to the path condition and records implied values: after (= v c) every model of the path
+// condition gives v the value c, so a query over bound variables only is decided by evaluation (implied-value
+// concretisation); the current model always satisfies the path condition, hence carries these values.
+func (e *Explorer) addPC(c *term) {
+	e.pc = append(e.pc, c)
+	if c.op == opEq && len(c.a) == 2 {
+		x, k := c.a[0], c.a[1]
+		if k.op == opVar {
+			x, k = k, x
+		}
+		if x.op == opVar && k.isConst() && x.c < 63 {
+			e.bound |= 1 << x.c
+		}
+	}
+}
+
 // feasible decides whether pc ∧ q is satisfiable; on sat it returns a model patch.
 func (e *Explorer) feasible(q *term) (sat int8, patch []varval) {
 	if q.isConst() {
@@ -211,6 +228,19 @@ func (e *Explorer) feasible(q *term) (sat int8, patch []varval) {
 		e.Stats.ModelHits++
 		return 1, nil
 	}
+	if q.vars&^e.bound == 0 {
+		// every variable of q is pinned by an equality of the path condition and q is false under those values
+		e.Stats.ModelHits++
+		return 0, nil
+	}
+	// q's negation is a conjunct of the path condition: unsatisfiable without asking
+	nq := tnot(q)
+	for _, c := range e.pc {
+		if c == nq {
+			e.Stats.CacheHits++
+			return 0, nil
+		}
+	}
 	rel, m := component(e.pc, q)
 	key := queryKey(rel, q)
 	if r, ok := e.qcache[key]; ok {
@@ -222,6 +252,18 @@ func (e *Explorer) feasible(q *term) (sat int8, patch []varval) {
 	s, vals, errLine := e.sol().check(conj, varsOfMask(m))
 	e.Stats.SolverTime += time.Since(t0)
 	e.Stats.Queries++
+	if debugDecisions && time.Since(t0) > 50*time.Millisecond {
+		n := 0
+		for _, c := range conj {
+			n += len(c.String())
+		}
+		fmt.Fprintf(os.Stderr, "slow query %v: %d conjuncts, %d bytes, q=%s\n", time.Since(t0), len(conj), n, trunc(q.String(), 100))
+		for _, c := range conj {
+			if len(c.String()) > 20000 {
+				fmt.Fprintf(os.Stderr, "   big %d: %s\n", len(c.String()), trunc(c.String(), 700))
+			}
+		}
+	}
 	switch s {
 	case 1:
 		e.Stats.Sat++
@@ -256,12 +298,15 @@ func (e *Explorer) choose(alts []*term) int {
 		}
 		e.pos++
 		c := d.feas[d.idx]
-		e.pc = append(e.pc, alts[c])
+		e.addPC(alts[c])
 		e.applyPatch(d.patch[d.idx])
 		if d.unk[d.idx] {
 			e.unk = true
 		}
 		return c
+	}
+	if debugDecisions {
+		fmt.Fprintf(os.Stderr, "decision %d at %s: %s\n", e.pos, shortStack(), trunc(alts[0].String(), 200))
 	}
 	d := &decRec{sig: sigOf(alts)}
 	for i, a := range alts {
@@ -280,7 +325,7 @@ func (e *Explorer) choose(alts []*term) int {
 	e.decs = append(e.decs, d)
 	e.pos++
 	c := d.feas[0]
-	e.pc = append(e.pc, alts[c])
+	e.addPC(alts[c])
 	e.applyPatch(d.patch[0])
 	if d.unk[0] {
 		e.unk = true
@@ -308,7 +353,7 @@ func (e *Explorer) concretize(t *term) uint64 {
 		}
 		e.pos++
 		v := d.vals[d.idx]
-		e.pc = append(e.pc, teq(t, kconst(v, t.w)))
+		e.addPC(teq(t, kconst(v, t.w)))
 		e.applyPatch(d.patch[d.idx])
 		return v
 	}
@@ -350,7 +395,7 @@ func (e *Explorer) concretize(t *term) uint64 {
 	e.Decided++
 	e.decs = append(e.decs, d)
 	e.pos++
-	e.pc = append(e.pc, teq(t, kconst(v0, t.w)))
+	e.addPC(teq(t, kconst(v0, t.w)))
 	return v0
 }
 
@@ -467,6 +512,7 @@ func (e *Explorer) undoTrail() {
 // RunPath executes f as one path of the current DFS state.
 func (e *Explorer) RunPath(f func()) (res PathResult) {
 	e.pc = e.pc[:0]
+	e.bound = 0
 	e.model = e.model[:0]
 	e.pos = 0
 	e.unk = false
@@ -655,3 +701,4 @@ func VarDecls() string {
 func VarNames() []string { return append([]string(nil), symtab.varNames...) }
 
 var debugPaths = os.Getenv("GOSYMX_DEBUG") != ""
+var debugDecisions = os.Getenv("GOSYMX_DEBUG") == "2"
